@@ -278,8 +278,36 @@ func callSubscriptionsListen(ctx context.Context, conn *jsonrpc2.Connection, met
 
 	go func() {
 		<-ctx.Done()
-		_ = cancelCall(ctx, conn, call)
+		_ = cancelCall(ctx, conn, call, params)
 	}()
+}
+
+// cancelledParams builds the "notifications/cancelled" payload for call, which
+// was issued with the given params.
+//
+// On protocol versions >= 2026-07-28 every message carries the per-request
+// _meta (protocol version, client info, client capabilities), and a peer may
+// reject a message without it; for the streamable client such a rejection
+// fails the whole session. So the cancellation notice inherits those fields
+// from the request it cancels.
+func cancelledParams(ctx context.Context, call *jsonrpc2.AsyncCall, params Params) *CancelledParams {
+	cp := &CancelledParams{
+		Reason:    ctx.Err().Error(),
+		RequestID: call.ID().Raw(),
+	}
+	if params == nil || params.isNil() {
+		return cp
+	}
+	meta := params.GetMeta()
+	for _, key := range []string{MetaKeyProtocolVersion, MetaKeyClientInfo, MetaKeyClientCapabilities} {
+		if v, ok := meta[key]; ok {
+			if cp.Meta == nil {
+				cp.Meta = Meta{}
+			}
+			cp.Meta[key] = v
+		}
+	}
+	return cp
 }
 
 // call executes and awaits a jsonrpc2 call on the given connection,
@@ -301,17 +329,14 @@ func call(ctx context.Context, conn *jsonrpc2.Connection, method string, params 
 		// Setting MCPGODEBUG=blockingcancelnotify=1 restores the previous
 		// behavior of waiting synchronously for delivery inside cancelCall.
 		if blockingcancelnotify == "1" {
-			err := cancelCall(ctx, conn, call)
+			err := cancelCall(ctx, conn, call, params)
 			return errors.Join(ctx.Err(), err)
 		}
 		conn.Retire(call, ctx.Err())
 		go func() {
 			notifyCtx, stop := context.WithTimeout(context.WithoutCancel(ctx), notifyCancellationTimeout)
 			defer stop()
-			_ = conn.Notify(notifyCtx, notificationCancelled, &CancelledParams{
-				Reason:    ctx.Err().Error(),
-				RequestID: call.ID().Raw(),
-			})
+			_ = conn.Notify(notifyCtx, notificationCancelled, cancelledParams(ctx, call, params))
 		}()
 		return ctx.Err()
 	case err != nil:
@@ -333,13 +358,10 @@ func call(ctx context.Context, conn *jsonrpc2.Connection, method string, params 
 // Therefore, we choose to eagerly retire calls, removing them from the
 // outgoingCalls map, when the caller context is cancelled: if the caller will
 // never receive the response, there's no need to track it.
-func cancelCall(ctx context.Context, conn *jsonrpc2.Connection, call *jsonrpc2.AsyncCall) error {
+func cancelCall(ctx context.Context, conn *jsonrpc2.Connection, call *jsonrpc2.AsyncCall, params Params) error {
 	notifyCtx, cancelNotify := context.WithTimeout(context.WithoutCancel(ctx), notifyCancellationTimeout)
 	defer cancelNotify()
-	err := conn.Notify(notifyCtx, notificationCancelled, &CancelledParams{
-		Reason:    ctx.Err().Error(),
-		RequestID: call.ID().Raw(),
-	})
+	err := conn.Notify(notifyCtx, notificationCancelled, cancelledParams(ctx, call, params))
 	conn.Retire(call, ctx.Err())
 	return err
 }
